@@ -30,11 +30,16 @@ class SimResult(object):
         self.trace = None         # concretised plan (what a replay file executes)
 
 
-def explore(strategy, simulate, seed, n_examples, known, batch=40, deadline_s=None, max_classes=4):
+SHRINKING = [False]   # simulate() may consult this to skip expensive side-exploration while shrinking
+
+
+def explore(strategy, simulate, seed, n_examples, known, batch=40, deadline_s=None, max_classes=4,
+            max_shrink_runs=120, max_shrink_s=30.0):
     """Returns {"stats","violations","digests","plan_digests","nontrivial","samples"}."""
     out = {"stats": {"runs": 0, "shrink_runs": 0, "seeds": [seed]}, "violations": [], "digests": [],
            "plan_digests": [], "nontrivial": [], "samples": []}
     ignore = set()
+    final_seen = set()
     t0 = time.time()
     done = 0
     b = 0
@@ -44,10 +49,24 @@ def explore(strategy, simulate, seed, n_examples, known, batch=40, deadline_s=No
             break
         b += 1
         n = min(batch, n_examples - done)
-        state = {"target": None, "last": None, "n": 0}
+        state = {"target": None, "last": None, "n": 0, "shrinks": 0, "t_shrink": None, "best": None}
 
         def test(plan):
-            res = simulate(plan)
+            if state["target"] is not None:
+                # bounded shrinking: when the budget is used up, only the best plan so far still fails,
+                # so Hypothesis finishes at once with that plan as its minimal example
+                if state["t_shrink"] is None:
+                    state["t_shrink"] = time.time()
+                state["shrinks"] += 1
+                if state["shrinks"] > max_shrink_runs or time.time() - state["t_shrink"] > max_shrink_s:
+                    if stable_hash(plan) == state["best"]:
+                        raise _Fail(state["target"])
+                    return
+            SHRINKING[0] = state["target"] is not None
+            try:
+                res = simulate(plan)
+            finally:
+                SHRINKING[0] = False
             if state["target"] is None:
                 state["n"] += 1
                 out["stats"]["runs"] += 1
@@ -62,6 +81,14 @@ def explore(strategy, simulate, seed, n_examples, known, batch=40, deadline_s=No
                 out["stats"]["shrink_runs"] += 1
             unknown = []
             for v in res.violations:
+                if v.get("final"):
+                    # already concrete (e.g. found by in-run fault enumeration): reported as is, not shrunk
+                    if state["target"] is None and match_known(known, v) is None and class_key(v) not in final_seen:
+                        final_seen.add(class_key(v))
+                        fv = dict(v)
+                        fv["trace"] = dict(fv.get("trace") or res.trace or {}, seed=seed)
+                        out["violations"].append(fv)
+                    continue
                 e = match_known(known, v)
                 if e is not None:
                     if state["target"] is None:
@@ -84,6 +111,7 @@ def explore(strategy, simulate, seed, n_examples, known, batch=40, deadline_s=No
             pick = dict(pick)
             pick["trace"] = res.trace
             state["last"] = pick
+            state["best"] = stable_hash(plan)
             raise _Fail(state["target"])
 
         test = _bind(test, state)
